@@ -2,7 +2,7 @@
 import json
 from collections import Counter
 
-from lib import vf, gensrv, defermerge, wire
+from lib import vf, gensrv, defermerge, wire, randschema
 from checks import c01
 
 
@@ -271,6 +271,13 @@ def run(ctx):
     except RuntimeError as e:
         built["mixed:base"] = e
     cfgs = list(cfgs) + ["mixed:base"]
+    # a randomly generated schema (the one C01 uses for this seed)
+    rname = randschema.write_probe(ctx.seed * 10)
+    try:
+        built[rname + ":base"] = gensrv.build_server(ctx, rname, "base")
+    except RuntimeError as e:
+        built[rname + ":base"] = e
+    cfgs = list(cfgs) + [rname + ":base"]
     dist = Counter()
     nontriv = set()
     total = 0
